@@ -1,10 +1,9 @@
 SPECIFICATION ISpec
 CONSTANTS
   Procs = {1,2}
-  Objs = {1}
+  Objs = {1,2}
   Keys = {1,2}
   MaxCalls = 2
   Variant = "ok"
-  Algo = "rm"
-INVARIANTS FnStartOK FnEndOK CallEndOK WaitOK OneExecPerKey WellFormed
+INVARIANTS FnStartOK CallEndOK WaitOK OneExecPerKey WellFormed
 CHECK_DEADLOCK TRUE
